@@ -350,13 +350,18 @@ def check(ctx: Ctx) -> None:
             A, B = 7, 0
             h = [(A, F, 1, b"\x01\x02"), (A, C, 2, b"\x03\x04"), (B, L, 9, b"\x0a"), (A, L, 3, b"\x05\x06"), (A, U, 4, b"\x07\x08"),
                  (B, C, 10, b"\x0b")]
-            it = make_interp(prog, {"XtcePacketDefinition.parse_ccsds_packet": lambda *a, **k: (_ for _ in ()).throw(Unsupported("parser called in header-only mode")),
+            parsed = []
+
+            def parse_stub(selfv, packet, root_container_name=None):
+                parsed.append(1)           # header-only mode hands out raw packets: the XTCE parser has nothing to do
+                return packet
+            it = make_interp(prog, {"XtcePacketDefinition.parse_ccsds_packet": parse_stub,
                                     "space_packet_parser.packets.ccsds_generator": lambda b, **k: b}, max_steps=400000)
             pk = [raw_packet(dd, apid=a, flags=f, count=c) for a, f, c, dd in h]
             ys = it.call(fi, [model_definition(it, "ROOT"), pk], {"ccsds_headers_only": True, "combine_segmented_packets": combine})
             got = [bytes(y) if isinstance(y, bytes) else repr(y) for y in ys]
             want = [_hdr(a, f, c, dd) for a, f, c, dd in h]
-            ctx.decide(got == want, "R12.off", site, "header-only framing yields every packet",
+            ctx.decide(got == want and not parsed, "R12.off", site, "header-only framing yields every packet",
                        f"with ccsds_headers_only=True and combine_segmented_packets={combine} the generator yields "
                        f"{len(got)} of {len(want)} raw packets ({[g.hex() if isinstance(g, bytes) else g for g in got]}): segmented packets must be "
                        f"handed out like all others", where=where(fi, fi.node))
